@@ -346,9 +346,15 @@ func (ck *checker) report(cfg Config, ops []Op, c Case, fd Finding) {
 	rp := replay{Config: mcfg, Ops: append([]Op{}, mops...), Case: mc}
 	// before believing it: the case must fail identically on a fresh application
 	if d, ok := confirm(rp, mf.Assertion); !ok || d != mf.Detail {
+		// The exploring process saw the oracle fail, a fresh application replaying the same operations does not (or
+		// fails differently). The harness keeps no state of its own between cases (on the tree it was written against
+		// nothing ever fails, so there is nothing to reproduce); what differs between the two runs is the memory of the
+		// APPLICATION: the code under test carries something from earlier transactions outside the store. That is
+		// reported, as a violation of the assertion that failed, with the note that it depends on process history.
 		fmt.Fprintf(os.Stderr, "harness: violation %s did not reproduce on a fresh application (first: %q, fresh: %q)\n", s, mf.Detail, d)
-		os.RemoveAll(scratchDir)
-		os.Exit(2)
+		ck.r.AddViolation(core.Violation{Property: ck.r.Property, Assertion: mf.Assertion + "[depends-on-process-history]", Signature: s + "|process-history",
+			Detail: mf.Detail + " || observed in the exploring process only: a fresh application replaying the same operations answers: " + d, Replay: rp})
+		return
 	}
 	ck.r.AddViolation(core.Violation{Property: ck.r.Property, Assertion: mf.Assertion, Signature: s, Detail: mf.Detail, Replay: rp})
 }
